@@ -22,8 +22,8 @@ RULE = ("histories of 1-8 (quick) / 1-20 (thorough) public transformation calls 
 TRUSTED = ["harness/c13.py, harness/tcommon.py + driver JSON glue",
            "cos/sin(k*pi/2) of the code are within 2^-50 of the exact integers used by the model (compared with 2^-40 relative bound)"]
 ASSUMPTIONS = ["dyadic arguments: translate/scale steps are exact in binary64; rotation steps carry float cos/sin error"]
-UNPROVED = ["operand/receiver immutability and 'returns self' are runtime facts: stated as model requirements, observed on the real code by snapshots",
-            "mesh/field level in-place == copy: complete equivalence (same acceptance, same state, whole histories) is proved for the non-periodic bc ('' / neumann / dirichlet); for periodic bc inplace_eq_copy_mesh states it up to the constructor's bc validity check and lower-casing (rotBc keeps bcOk: not proved)",
+UNPROVED = ["operand/receiver immutability and 'returns self' are runtime facts: stated as model requirements, observed on the real code by snapshots; 'a rejected step leaves the object unmodified' is proved as: the model step returns an error carrying no state, exactly for the malformed-argument classes (rejected_iff_malformed_*), and a history skips it (rejected_step_skipped) - partial mutation before an exception is only observable on the real code",
+            "mesh/field-level complete equivalence of the two forms (step_forms_mesh, inplace_eq_copy_mesh_complete, inplace_eq_copy_field, history_forms_agree_*) now covers periodic bc, under BcWf: bc lower-case and checked and - for periodic bc - single-character dimension names lower-case; for upper-case single-character dimension names the letter swap does not commute with the setter's str.lower and the forms can differ (inplace_eq_copy_mesh still describes them up to the bc check) - outside the generators",
             "the mesh/field-level form theorems assume SubInv in exact arithmetic: in binary64 the copying form re-validates subregions with an absolute 1e-12 tolerance and can reject where the in-place form succeeds (known finding D18) - observed by the harness, outside the rational model"]
 BUDGET = {"quick": 90, "thorough": 900}
 
